@@ -1238,7 +1238,7 @@ func c10Records(w *World, r *Report) {
 					if bt, okb := res.Type().Underlying().(*types.Basic); !isC || !okb || bt.Info()&types.IsInteger == 0 {
 						continue
 					}
-					for caller := range allModuleFuncs(w, w.SSA()) {
+					for _, caller := range sortedModuleFuncs(w, w.SSA()) {
 						for _, c := range callsIn(caller) {
 							call, isCall := c.(*ssa.Call)
 							if !isCall || c.Common().StaticCallee() != fn || call.Referrers() == nil {
@@ -1374,7 +1374,7 @@ func c10Private(w *World, r *Report) {
 	key := "privaterr:registered=emitted"
 	var regType int64 = -1
 	var regPos string
-	for fn := range allModuleFuncs(w, w.SSA()) {
+	for _, fn := range sortedModuleFuncs(w, w.SSA()) {
 		for _, c := range callsIn(fn) {
 			f := sCallee(c)
 			if f != nil && f.Pkg() != nil && f.Pkg().Path() == "github.com/miekg/dns" && f.Name() == "PrivateHandle" {
@@ -1423,7 +1423,7 @@ func c10Private(w *World, r *Report) {
 func c10NoWriteIntoCallerSlices(w *World, r *Report) {
 	n := 0
 	var bad []string
-	for fn := range allModuleFuncs(w, w.SSA()) {
+	for _, fn := range sortedModuleFuncs(w, w.SSA()) {
 		f0 := fn
 		for f0.Parent() != nil {
 			f0 = f0.Parent()
